@@ -65,6 +65,21 @@ CHECKS = {
             "trusted: numpy; shares with f and 1/(2f) dyadic at the threshold, other shares only away from it; ballot "
             "candidates are a subset of the contest's candidates",
             "DESIGN.md section 4, C02"),
+    "C18": ("runtime contract on CVR.merge_cvrs (pre-call deep snapshot, post-call comparison with a reference fold) plus a reference parser for the RAIRE readers",
+            "Exploration by runtime monitoring: the contract on the real merge_cvrs snapshots every input record before "
+            "the call (the merge mutates them) and compares ids/order, per-contest votes, phantom (AND), pool (OR, must be a "
+            "bool) and tally pool with a reference fold; conflicts must raise. from_raire / from_raire_file are compared with "
+            "a reference parser on generated inputs (1-3 contests, repeated and interleaved ballot ids), including through a real file.",
+            "trusted: the reference fold in checks/c18.py; None tally pool means unknown",
+            "DESIGN.md section 4, C18"),
+    "C19": ("reference-model monitor (reference reading written from the property text) plus metamorphic monitor (marks shuffled, sorted keys, Modified first) over generated exports read by the real Dominion.read_cvrs",
+            "Exploration by runtime monitoring: generated Dominion exports (both layouts, repeated candidates, ranks 0-5, "
+            "IsVote mixed, obfuscated record ids, Modified blocks covering subsets of contests, either key order) are written "
+            "to disk, read by the real reader under the full option grid and compared record by record with a reference "
+            "reading; three re-serialisations of each export must give the identical list; read_cvrs_directory is checked "
+            "for lexicographic file order. Mismatches are diagnosed by re-running the reference with one option flipped.",
+            "trusted: json, the reference reader in checks/c19.py; one copy of a contest per data block",
+            "DESIGN.md section 4, C19"),
 }
 
 PENDING_REASON = ("check designed in DESIGN.md section 4 but not yet built in this session; "
